@@ -314,7 +314,7 @@ def recover_cek(alg: str, enc: str, key: RKey, ek: bytes, merged: dict, sender: 
         p2c = merged.get("p2c")
         if not isinstance(p2c, int) or isinstance(p2c, bool) or p2c < 1:
             raise Reject("p2c must be a positive integer")
-        if p2c > 1_000_000:
+        if p2c > 2_000_000:
             raise Reject("p2c too large for the simulation")
         kek = hashlib.pbkdf2_hmac(hname, key.k, alg.encode() + b"\x00" + p2s, p2c, klen)
         return aes_kw_unwrap(kek, ek)
